@@ -262,6 +262,29 @@ theorem serpent_implements (K : List Nat) (hK : SerpentKey K) :
     (fun b hb => (Proofs.C02_Serpent.enc_refines_bytes K b hK.2 hb.2 hK.1 hb.1).1)
     (fun b hb => (Proofs.C02_Serpent.dec_refines_bytes K b hK.2 hb.2 hK.1 hb.1).1)
 
+/-- the object built by the constructor (round keys computed once) is the cipher the theorems speak about -/
+theorem serpent_ctor (K : List Nat) (hK : SerpentKey K) : Ciphers.serpent? K = .ok (Ciphers.serpent K) := by
+  have hk := Proofs.Lemmas.SerpentBytes.ofBytes_le K hK.2
+  have hi := Proofs.Lemmas.SerpentKS.init_eq ⟨Spec.Serpent.leNat K, 8 * K.length⟩ (by show 8 * K.length ≤ 256; have := hK.1; omega)
+    (Proofs.Lemmas.SerpentBytes.leNat_lt K)
+  unfold Ciphers.serpent?
+  simp only [hk, hi, bind, Except.bind]
+  congr 1
+  unfold Ciphers.serpentObj Ciphers.serpent
+  congr 1
+  · funext b
+    simp only [Serpent.encBytes, Serpent.enc, hk, hi, bind, Except.bind]
+  · funext b
+    simp only [Serpent.decBytes, Serpent.dec, hk, hi, bind, Except.bind]
+
+/-- sharing the round keys between blocks does not change the Spec cipher -/
+theorem serpentShared_eq (K : List Nat) : Spec.ModeCiphers.serpentShared K = Spec.ModeCiphers.serpent K := by
+  unfold Spec.ModeCiphers.serpentShared Spec.ModeCiphers.serpent
+  simp only [Spec.Serpent.enc, Spec.Serpent.dec, Spec.Serpent.encNat, Spec.Serpent.decNat]
+  congr 1
+  · funext b; split <;> rfl
+  · funext b; split <;> rfl
+
 /-! ### the block ciphers of the library -/
 
 /-- `LibCipher c k`: `c` is a block cipher object of the library built with an accepted key (what a user passes to
